@@ -20,22 +20,453 @@ structure Inv (mo len : Nat) (f : List Bits) : Prop where
     FreeAt f o₁ (p / 2 ^ o₁) → FreeAt f o₂ (p / 2 ^ o₂) → o₁ = o₂
   merged : ∀ o i, o < mo → FreeAt f o i → ¬ FreeAt f o (i ^^^ 1)
 
-theorem new_inv (n cap : Nat) (hc : 0 < cap) (hn : n ≤ cap) :
-    Inv (usableOrder cap) n (Buddy.new n cap).free ∧
-    ∀ p, p < n → PageFree (usableOrder cap) (Buddy.new n cap).free p := by
-  sorry
+/-! ### bit-level basics -/
+
+theorem length_setBit (f : List Bits) (o i : Nat) (v : Bool) :
+    (setBit f o i v).length = f.length := by
+  simp [setBit]
+
+theorem lenAt_setBit (f : List Bits) (o i : Nat) (v : Bool) (o' : Nat) :
+    lenAt (setBit f o i v) o' = lenAt f o' := by
+  simp [lenAt, setBit, List.getD_eq_getElem?_getD, List.getElem?_modify]
+  grind
+
+theorem getBit_setBit (f : List Bits) (o i : Nat) (v : Bool) (o' i' : Nat) :
+    getBit (setBit f o i v) o' i' =
+      if o' = o ∧ i' = i ∧ i < lenAt f o then v else getBit f o' i' := by
+  simp [getBit, lenAt, setBit, List.getD_eq_getElem?_getD, List.getElem?_modify]
+  grind
+
+theorem freeAt_setBit_true (f : List Bits) (o i o' i' : Nat) :
+    FreeAt (setBit f o i true) o' i' ↔ FreeAt f o' i' ∧ ¬ (o' = o ∧ i' = i) := by
+  simp only [FreeAt, lenAt_setBit, getBit_setBit]
+  grind
+
+theorem freeAt_setBit_false (f : List Bits) (o i o' i' : Nat) (hi : i < lenAt f o) :
+    FreeAt (setBit f o i false) o' i' ↔ FreeAt f o' i' ∨ (o' = o ∧ i' = i) := by
+  simp only [FreeAt, lenAt_setBit, getBit_setBit]
+  grind
+
+theorem firstUnset_some (f : List Bits) (o x : Nat) (h : firstUnset (f.getD o []) = some x) :
+    FreeAt f o x := by
+  simp only [firstUnset] at h
+  simp only [FreeAt, lenAt, getBit]
+  rw [List.findIdx?_eq_some_iff_getElem] at h
+  grind
+
+theorem firstUnset_none (f : List Bits) (o : Nat) (h : firstUnset (f.getD o []) = none) (i : Nat) :
+    ¬ FreeAt f o i := by
+  simp only [firstUnset, List.findIdx?_eq_none_iff] at h
+  simp only [FreeAt, lenAt, getBit]
+  intro ⟨h1, h2⟩
+  have := h _ (List.getElem_mem h1)
+  grind
+
+/-! ### arithmetic -/
+
+theorem xor_one_div (i : Nat) : (i ^^^ 1) / 2 = i / 2 := by simp [Nat.xor_div_two]
+theorem xor_one_mod (i : Nat) : (i ^^^ 1) % 2 = (i + 1) % 2 := by
+  have := @Nat.xor_mod_two_eq_one i 1
+  omega
+theorem xor_one_eq (i : Nat) : i ^^^ 1 = if i % 2 = 0 then i + 1 else i - 1 := by
+  have := xor_one_div i; have := xor_one_mod i; split <;> omega
+
+theorem div_pow_succ (p o : Nat) : p / 2 ^ (o + 1) = p / 2 ^ o / 2 := by
+  rw [Nat.pow_succ, Nat.div_div_eq_div_mul]
+
+theorem div_pow_succ' (p o : Nat) : p / 2 ^ (o + 1) = p / 2 / 2 ^ o := by
+  rw [Nat.pow_succ', Nat.div_div_eq_div_mul]
+
+theorem div_pow_add (p a b : Nat) : p / 2 ^ (a + b) = p / 2 ^ a / 2 ^ b := by
+  rw [Nat.pow_add, Nat.div_div_eq_div_mul]
+
+theorem range_iff (i o len : Nat) : (i + 1) * 2 ^ o ≤ len ↔ i < len / 2 ^ o := by
+  rw [Nat.lt_iff_add_one_le, Nat.le_div_iff_mul_le (Nat.two_pow_pos o)]
+
+
+/-! ### abstract state transitions -/
+
+theorem pageFree_lt {mo len : Nat} {f : List Bits} (h : Inv mo len f) {q : Nat}
+    (hq : PageFree mo f q) : q < len := by
+  obtain ⟨o, ho, h1, _⟩ := hq
+  rw [h.lens o ho] at h1
+  have := (range_iff (q / 2 ^ o) o len).2 h1
+  have := Nat.lt_succ_iff.2 (Nat.div_mul_le_self q (2 ^ o))
+  have hp := Nat.two_pow_pos o
+  have := Nat.lt_div_mul_add (a := q) hp
+  rw [Nat.add_mul] at *
+  omega
+
+theorem block_nonempty (o j : Nat) : (j * 2 ^ o) / 2 ^ o = j :=
+  Nat.mul_div_cancel j (Nat.two_pow_pos o)
+
+theorem freeAt_pageFree {mo : Nat} {f : List Bits} {o j q : Nat} (ho : o ≤ mo)
+    (h : FreeAt f o j) (hq : q / 2 ^ o = j) : PageFree mo f q :=
+  ⟨o, ho, hq ▸ h⟩
+
+/-- marking a block that is free at order `o` as used -/
+theorem mark_used {mo len : Nat} {f : List Bits} {o j : Nat} (h : Inv mo len f) (ho : o ≤ mo)
+    (hf : FreeAt f o j) :
+    Inv mo len (setBit f o j true) ∧
+    ∀ q, PageFree mo (setBit f o j true) q ↔ (PageFree mo f q ∧ q / 2 ^ o ≠ j) := by
+  refine ⟨⟨?_, ?_, ?_, ?_⟩, ?_⟩
+  · rw [length_setBit, h.size]
+  · intro o' ho'; rw [lenAt_setBit, h.lens o' ho']
+  · intro p o₁ o₂ h1 h2 hf1 hf2
+    rw [freeAt_setBit_true] at hf1 hf2
+    exact h.unique p o₁ o₂ h1 h2 hf1.1 hf2.1
+  · intro o' i ho' hf1 hf2
+    rw [freeAt_setBit_true] at hf1 hf2
+    exact h.merged o' i ho' hf1.1 hf2.1
+  · intro q
+    constructor
+    · rintro ⟨o', ho', hf'⟩
+      rw [freeAt_setBit_true] at hf'
+      refine ⟨⟨o', ho', hf'.1⟩, ?_⟩
+      intro hq
+      have := h.unique q o' o ho' ho hf'.1 (hq ▸ hf)
+      exact hf'.2 ⟨this, this ▸ hq⟩
+    · rintro ⟨⟨o', ho', hf'⟩, hq⟩
+      refine ⟨o', ho', ?_⟩
+      rw [freeAt_setBit_true]
+      refine ⟨hf', ?_⟩
+      rintro ⟨rfl, h2⟩
+      exact hq h2
+
+/-- marking a block none of whose pages is free as free at order `o`, when its buddy is not
+free at that order (or `o` is the top order) -/
+theorem mark_free {mo len : Nat} {f : List Bits} {o j : Nat} (h : Inv mo len f) (ho : o ≤ mo)
+    (hr : j < len / 2 ^ o) (hheld : ∀ q, q / 2 ^ o = j → ¬ PageFree mo f q)
+    (hb : o < mo → ¬ FreeAt f o (j ^^^ 1)) :
+    Inv mo len (setBit f o j false) ∧
+    ∀ q, PageFree mo (setBit f o j false) q ↔ (PageFree mo f q ∨ q / 2 ^ o = j) := by
+  have hj : j < lenAt f o := by rw [h.lens o ho]; exact hr
+  refine ⟨⟨?_, ?_, ?_, ?_⟩, ?_⟩
+  · rw [length_setBit, h.size]
+  · intro o' ho'; rw [lenAt_setBit, h.lens o' ho']
+  · intro p o₁ o₂ h1 h2 hf1 hf2
+    rw [freeAt_setBit_false _ _ _ _ _ hj] at hf1 hf2
+    rcases hf1 with hf1 | ⟨d1, e1⟩ <;> rcases hf2 with hf2 | ⟨d2, e2⟩
+    · exact h.unique p o₁ o₂ h1 h2 hf1 hf2
+    · subst d2; exact absurd (freeAt_pageFree h1 hf1 rfl) (hheld p e2)
+    · subst d1; exact absurd (freeAt_pageFree h2 hf2 rfl) (hheld p e1)
+    · omega
+  · intro o' i ho' hf1 hf2
+    rw [freeAt_setBit_false _ _ _ _ _ hj] at hf1 hf2
+    have hx := xor_one_eq i
+    have hx' := xor_one_eq j
+    rcases hf1 with hf1 | ⟨d1, e1⟩ <;> rcases hf2 with hf2 | ⟨d2, e2⟩
+    · exact h.merged o' i ho' hf1 hf2
+    · subst d2
+      apply hb ho'
+      have : j ^^^ 1 = i := by subst e2; split at hx <;> split at hx' <;> omega
+      rw [this]; exact hf1
+    · subst d1; subst e1; exact hb ho' hf2
+    · split at hx <;> omega
+  · intro q
+    constructor
+    · rintro ⟨o', ho', hf'⟩
+      rw [freeAt_setBit_false _ _ _ _ _ hj] at hf'
+      rcases hf' with hf' | ⟨rfl, e⟩
+      · exact Or.inl ⟨o', ho', hf'⟩
+      · exact Or.inr e
+    · rintro (⟨o', ho', hf'⟩ | e)
+      · exact ⟨o', ho', (freeAt_setBit_false _ _ _ _ _ hj).2 (Or.inl hf')⟩
+      · exact ⟨o, ho, (freeAt_setBit_false _ _ _ _ _ hj).2 (Or.inr ⟨rfl, e⟩)⟩
+
+
+/-- pages of a block lie in its ancestors -/
+theorem div_pow_of_le {q o o' : Nat} (h : o ≤ o') : q / 2 ^ o' = q / 2 ^ o / 2 ^ (o' - o) := by
+  rw [← div_pow_add]; congr 2; omega
+
+/-- a free block covers all sub-blocks -/
+theorem freeAt_cover_pageFree {mo : Nat} {f : List Bits} {o o' i q : Nat} (hoo : o ≤ o')
+    (ho' : o' ≤ mo) (hf : FreeAt f o' (i / 2 ^ (o' - o))) (hq : q / 2 ^ o = i) :
+    PageFree mo f q :=
+  ⟨o', ho', by rw [div_pow_of_le hoo, hq]; exact hf⟩
+
+/-- Key fact: under `Inv`, an aligned block all of whose pages are free is contained in a
+block that is free at some order `≥` its own. -/
+theorem cover {mo len : Nat} {f : List Bits} (h : Inv mo len f) (o : Nat) :
+    ∀ i, o ≤ mo → (∀ q, q / 2 ^ o = i → PageFree mo f q) →
+      ∃ o', o ≤ o' ∧ o' ≤ mo ∧ FreeAt f o' (i / 2 ^ (o' - o)) := by
+  induction o with
+  | zero =>
+    intro i _ hall
+    obtain ⟨o', ho', hf⟩ := hall i (by simp)
+    exact ⟨o', Nat.zero_le _, ho', by simpa using hf⟩
+  | succ o ih =>
+    intro i ho hall
+    have hlo : o ≤ mo := by omega
+    obtain ⟨o1, h1, h1', hf1⟩ := ih (2 * i) hlo (fun q hq => hall q (by rw [div_pow_succ, hq]; omega))
+    obtain ⟨o2, h2, h2', hf2⟩ := ih (2 * i + 1) hlo (fun q hq => hall q (by rw [div_pow_succ, hq]; omega))
+    by_cases e1 : o1 = o
+    · by_cases e2 : o2 = o
+      · subst e1; subst e2
+        simp only [Nat.sub_self, Nat.pow_zero, Nat.div_one] at hf1 hf2
+        have hx := xor_one_eq (2 * i)
+        rw [if_pos (by omega)] at hx
+        exact absurd (hx ▸ hf2) (h.merged _ _ (by omega) hf1)
+      · refine ⟨o2, by omega, h2', ?_⟩
+        have e : o2 - o = (o2 - (o + 1)) + 1 := by omega
+        rw [e, div_pow_succ'] at hf2
+        have : (2 * i + 1) / 2 = i := by omega
+        rwa [this] at hf2
+    · refine ⟨o1, by omega, h1', ?_⟩
+      have e : o1 - o = (o1 - (o + 1)) + 1 := by omega
+      rw [e, div_pow_succ'] at hf1
+      have : (2 * i) / 2 = i := by omega
+      rwa [this] at hf1
+
+/-! ### `allocInner` -/
+
+theorem allocInner_sound' (mo len : Nat) (f : List Bits) (o : Nat) (h : Inv mo len f) :
+    ∀ i f', allocInner mo f o = some (i, f') →
+    o ≤ mo ∧ Inv mo len f' ∧ i < len / 2 ^ o ∧
+    (∀ p, p / 2 ^ o = i → PageFree mo f p ∧ ¬ PageFree mo f' p) ∧
+    (∀ p, p / 2 ^ o ≠ i → (PageFree mo f' p ↔ PageFree mo f p)) := by
+  fun_induction allocInner mo f o with
+  | case1 o hgt => intro i f' ha; simp at ha
+  | case2 o hle x hx =>
+    intro i f' ha
+    simp only [Option.some.injEq, Prod.mk.injEq] at ha
+    obtain ⟨rfl, rfl⟩ := ha
+    have ho : o ≤ mo := by omega
+    have hf := firstUnset_some f o x hx
+    obtain ⟨hinv, hpf⟩ := mark_used h ho hf
+    refine ⟨ho, hinv, ?_, ?_, ?_⟩
+    · rw [← h.lens o ho]; exact hf.1
+    · intro p hp
+      exact ⟨freeAt_pageFree ho hf hp, fun hc => ((hpf p).1 hc).2 hp⟩
+    · intro p hp
+      rw [hpf p]; exact ⟨fun a => a.1, fun a => ⟨a, hp⟩⟩
+  | case3 o hle hnone hrec ih => intro i f' ha; simp at ha
+  | case4 o hle hnone up f1 hrec ih =>
+    intro i f' ha
+    simp only [Option.some.injEq, Prod.mk.injEq] at ha
+    obtain ⟨rfl, rfl⟩ := ha
+    have ho : o ≤ mo := by omega
+    obtain ⟨ho1, hinv1, hr1, hin, hout⟩ := ih up f1 hrec
+    rw [div_pow_succ] at hr1
+    have hx := xor_one_eq (2 * up + 1)
+    rw [if_neg (by omega)] at hx
+    have hheld : ∀ q, q / 2 ^ o = 2 * up + 1 → ¬ PageFree mo f1 q := fun q hq =>
+      (hin q (by rw [div_pow_succ, hq]; omega)).2
+    have hb : o < mo → ¬ FreeAt f1 o ((2 * up + 1) ^^^ 1) := by
+      intro _ hc
+      rw [hx] at hc
+      have hq := block_nonempty o (2 * up + 1 - 1)
+      exact (hin _ (by rw [div_pow_succ, hq]; omega)).2 (freeAt_pageFree ho hc hq)
+    obtain ⟨hinv, hpf⟩ := mark_free hinv1 ho (j := 2 * up + 1) (by omega) hheld hb
+    refine ⟨ho, hinv, by omega, ?_, ?_⟩
+    · intro p hp
+      have hp1 : p / 2 ^ (o + 1) = up := by rw [div_pow_succ, hp]; omega
+      refine ⟨(hin p hp1).1, ?_⟩
+      rw [hpf p]
+      rintro (hc | hc)
+      · exact (hin p hp1).2 hc
+      · omega
+    · intro p hp
+      rw [hpf p]
+      by_cases hp1 : p / 2 ^ (o + 1) = up
+      · have : p / 2 ^ o = 2 * up + 1 := by rw [div_pow_succ] at hp1; omega
+        exact ⟨fun _ => (hin p hp1).1, fun _ => Or.inr this⟩
+      · have : p / 2 ^ o ≠ 2 * up + 1 := by rw [div_pow_succ] at hp1; omega
+        rw [← hout p hp1]
+        exact ⟨fun a => a.resolve_right this, Or.inl⟩
+
+theorem allocInner_none (mo : Nat) (f : List Bits) (o : Nat) (ha : allocInner mo f o = none) :
+    ∀ o', o ≤ o' → o' ≤ mo → ∀ i, ¬ FreeAt f o' i := by
+  fun_induction allocInner mo f o with
+  | case1 o hgt => intro o' h1 h2; omega
+  | case2 o hle x hx => simp at ha
+  | case3 o hle hnone hrec ih =>
+    intro o' h1 h2 i
+    by_cases e : o' = o
+    · subst e; exact firstUnset_none f o' hnone i
+    · exact ih hrec o' (by omega) h2 i
+  | case4 o hle hnone up f1 hrec ih => simp at ha
 
 theorem allocInner_sound (mo len : Nat) (f f' : List Bits) (o i : Nat)
     (h : Inv mo len f) (ha : allocInner mo f o = some (i, f')) :
     Inv mo len f' ∧ (i + 1) * 2 ^ o ≤ len ∧
     (∀ p, p / 2 ^ o = i → PageFree mo f p ∧ ¬ PageFree mo f' p) ∧
     (∀ p, p / 2 ^ o ≠ i → (PageFree mo f' p ↔ PageFree mo f p)) := by
-  sorry
+  obtain ⟨_, h1, h2, h3, h4⟩ := allocInner_sound' mo len f o h i f' ha
+  exact ⟨h1, (range_iff _ _ _).2 h2, h3, h4⟩
 
 theorem allocInner_complete (mo len : Nat) (f : List Bits) (o : Nat)
     (h : Inv mo len f) (ha : allocInner mo f o = none) :
     ¬ ∃ i, o ≤ mo ∧ (i + 1) * 2 ^ o ≤ len ∧ ∀ p, p / 2 ^ o = i → PageFree mo f p := by
-  sorry
+  rintro ⟨i, ho, _, hall⟩
+  obtain ⟨o', h1, h2, hf⟩ := cover h o i ho hall
+  exact allocInner_none mo f o ha o' h1 h2 _ hf
+
+
+/-! ### `recordAllocInner` -/
+
+theorem xor_one_xor_one (i : Nat) : (i ^^^ 1) ^^^ 1 = i := by
+  have h1 := xor_one_eq i
+  have h2 := xor_one_eq (i ^^^ 1)
+  split at h1 <;> split at h2 <;> omega
+
+theorem half_eq_iff (i j : Nat) : j / 2 = i / 2 ↔ (j = i ∨ j = i ^^^ 1) := by
+  have h1 := xor_one_eq i
+  split at h1 <;> omega
+
+theorem recordAllocInner_some (mo len : Nat) (f : List Bits) (p o : Nat) (h : Inv mo len f) :
+    ∀ f', recordAllocInner mo f p o = some f' →
+      o ≤ mo ∧ p < len / 2 ^ o ∧ (∀ q, q / 2 ^ o = p → PageFree mo f q) ∧
+      Inv mo len f' ∧ (∀ q, PageFree mo f' q ↔ (PageFree mo f q ∧ q / 2 ^ o ≠ p)) := by
+  fun_induction recordAllocInner mo f p o with
+  | case1 p o hgt => intro f' ha; simp at ha
+  | case2 p o hle hlen => intro f' ha; simp at ha
+  | case3 p o hle hlen hbit hrec ih => intro f' ha; simp at ha
+  | case4 p o hle hlen hbit f1 hrec ih =>
+    intro f' ha
+    simp only [Option.some.injEq] at ha
+    subst ha
+    have ho : o ≤ mo := by omega
+    obtain ⟨ho1, hr1, hall1, hinv1, hpf1⟩ := ih f1 hrec
+    rw [div_pow_succ] at hr1
+    have hpl : p < len / 2 ^ o := by rw [← h.lens o ho]; omega
+    have hd := xor_one_div p
+    have hx := xor_one_eq p
+    have hheld : ∀ q, q / 2 ^ o = p ^^^ 1 → ¬ PageFree mo f1 q := fun q hq hc =>
+      ((hpf1 q).1 hc).2 (by rw [div_pow_succ, hq, hd])
+    have hb : o < mo → ¬ FreeAt f1 o ((p ^^^ 1) ^^^ 1) := by
+      intro _ hc
+      rw [xor_one_xor_one] at hc
+      have hq := block_nonempty o p
+      exact ((hpf1 _).1 (freeAt_pageFree ho hc hq)).2 (by rw [div_pow_succ, hq])
+    obtain ⟨hinv, hpf⟩ := mark_free hinv1 ho (j := p ^^^ 1) (by split at hx <;> omega) hheld hb
+    refine ⟨ho, hpl, fun q hq => hall1 q (by rw [div_pow_succ, hq]), hinv, ?_⟩
+    intro q
+    rw [hpf q, hpf1 q, div_pow_succ]
+    have hh := half_eq_iff p (q / 2 ^ o)
+    constructor
+    · rintro (⟨a, b⟩ | b)
+      · exact ⟨a, fun e => b (by rw [e])⟩
+      · exact ⟨hall1 q (by rw [div_pow_succ, b, hd]), by rw [b]; split at hx <;> omega⟩
+    · rintro ⟨a, b⟩
+      by_cases e : q / 2 ^ o / 2 = p / 2
+      · exact Or.inr ((hh.1 e).resolve_left b)
+      · exact Or.inl ⟨a, e⟩
+  | case5 p o hle hlen hbit =>
+    intro f' ha
+    simp only [Option.some.injEq] at ha
+    subst ha
+    have ho : o ≤ mo := by omega
+    have hf : FreeAt f o p := ⟨by omega, by simpa using hbit⟩
+    obtain ⟨hinv, hpf⟩ := mark_used h ho hf
+    refine ⟨ho, by rw [← h.lens o ho]; exact hf.1, fun q hq => freeAt_pageFree ho hf hq, hinv, hpf⟩
+
+theorem recordAllocInner_isSome (mo len : Nat) (f : List Bits) (p o : Nat) (h : Inv mo len f)
+    (ho : o ≤ mo) (hr : p < len / 2 ^ o) (hall : ∀ q, q / 2 ^ o = p → PageFree mo f q) :
+    (recordAllocInner mo f p o).isSome := by
+  fun_induction recordAllocInner mo f p o with
+  | case1 p o hgt => omega
+  | case2 p o hle hlen => rw [h.lens o ho] at hlen; omega
+  | case3 p o hle hlen hbit hrec ih
+  | case4 p o hle hlen hbit f1 hrec ih =>
+    obtain ⟨o', h1, h2, hf⟩ := cover h o p ho hall
+    have hne : o' ≠ o := by
+      rintro rfl
+      simp only [Nat.sub_self, Nat.pow_zero, Nat.div_one] at hf
+      rw [hf.2] at hbit; simp at hbit
+    have e : o' - o = (o' - (o + 1)) + 1 := by omega
+    rw [e, div_pow_succ'] at hf
+    have hall' : ∀ q, q / 2 ^ (o + 1) = p / 2 → PageFree mo f q := fun q hq =>
+      freeAt_cover_pageFree (by omega) h2 hf hq
+    have hr' : p / 2 < len / 2 ^ (o + 1) := by
+      have := hf.1
+      rw [h.lens o' h2, div_pow_of_le (show o + 1 ≤ o' by omega)] at this
+      exact Nat.lt_of_div_lt_div this
+    have := ih (by omega) hr' hall'
+    first | (simp [hrec] at this; done) | simp
+  | case5 p o hle hlen hbit => simp
+
+theorem recordAllocInner_spec (mo len : Nat) (f : List Bits) (p o : Nat) (h : Inv mo len f) :
+    ((recordAllocInner mo f p o).isSome ↔
+      (o ≤ mo ∧ (p + 1) * 2 ^ o ≤ len ∧ ∀ q, q / 2 ^ o = p → PageFree mo f q)) ∧
+    (∀ f', recordAllocInner mo f p o = some f' →
+      Inv mo len f' ∧ (∀ q, PageFree mo f' q ↔ (PageFree mo f q ∧ q / 2 ^ o ≠ p))) := by
+  refine ⟨⟨?_, ?_⟩, ?_⟩
+  · intro hs
+    obtain ⟨f', hf'⟩ := Option.isSome_iff_exists.1 hs
+    obtain ⟨h1, h2, h3, _⟩ := recordAllocInner_some mo len f p o h f' hf'
+    exact ⟨h1, (range_iff _ _ _).2 h2, h3⟩
+  · rintro ⟨h1, h2, h3⟩
+    exact recordAllocInner_isSome mo len f p o h h1 ((range_iff _ _ _).1 h2) h3
+  · intro f' hf'
+    obtain ⟨_, _, _, h4, h5⟩ := recordAllocInner_some mo len f p o h f' hf'
+    exact ⟨h4, h5⟩
+
+
+/-! ### `freeInner` -/
+
+theorem freeInner_spec' (mo len : Nat) (f : List Bits) (p o : Nat) :
+    Inv mo len f → o ≤ mo → p < len / 2 ^ o → (∀ q, q / 2 ^ o = p → ¬ PageFree mo f q) →
+    Inv mo len (freeInner mo f p o).1 ∧
+    (∀ q, PageFree mo (freeInner mo f p o).1 q ↔ (PageFree mo f q ∨ q / 2 ^ o = p)) ∧
+    o ≤ (freeInner mo f p o).2 ∧ (freeInner mo f p o).2 ≤ mo ∧
+    FreeAt (freeInner mo f p o).1 (freeInner mo f p o).2 (p / 2 ^ ((freeInner mo f p o).2 - o)) := by
+  fun_induction freeInner mo f p o with
+  | case1 f p o hge =>
+    intro h ho hr hheld
+    obtain ⟨hinv, hpf⟩ := mark_free h ho hr hheld (by omega)
+    refine ⟨hinv, hpf, Nat.le_refl _, ho, ?_⟩
+    simp only [Nat.sub_self, Nat.pow_zero, Nat.div_one]
+    exact (freeAt_setBit_false _ _ _ _ _ (by rw [h.lens o ho]; exact hr)).2 (Or.inr ⟨rfl, rfl⟩)
+  | case2 f p o hlt buddy hcond =>
+    intro h ho hr hheld
+    have hb : ¬ FreeAt f o (p ^^^ 1) := by
+      intro hc
+      simp only [Bool.or_eq_true, decide_eq_true_eq] at hcond
+      rcases hcond with hc1 | hc1
+      · exact absurd hc.1 (by omega)
+      · rw [hc.2] at hc1; simp at hc1
+    obtain ⟨hinv, hpf⟩ := mark_free h ho hr hheld (fun _ => hb)
+    refine ⟨hinv, hpf, Nat.le_refl _, ho, ?_⟩
+    simp only [Nat.sub_self, Nat.pow_zero, Nat.div_one]
+    exact (freeAt_setBit_false _ _ _ _ _ (by rw [h.lens o ho]; exact hr)).2 (Or.inr ⟨rfl, rfl⟩)
+  | case3 f p o hlt buddy hcond ih =>
+    intro h ho hr hheld
+    have hb : FreeAt f o (p ^^^ 1) := by
+      simp only [Bool.or_eq_true, decide_eq_true_eq, not_or] at hcond
+      exact ⟨by omega, by simpa using hcond.2⟩
+    obtain ⟨hinv1, hpf1⟩ := mark_used h ho hb
+    have hd := xor_one_div p
+    have hx := xor_one_eq p
+    have hbl : p ^^^ 1 < len / 2 ^ o := by rw [← h.lens o ho]; exact hb.1
+    have hh := fun j => half_eq_iff p j
+    have hheld1 : ∀ q, q / 2 ^ (o + 1) = p / 2 → ¬ PageFree mo (setBit f o buddy true) q := by
+      intro q hq hc
+      rw [div_pow_succ] at hq
+      have hc' := (hpf1 q).1 hc
+      rcases (hh _).1 hq with e | e
+      · exact hheld q e hc'.1
+      · exact hc'.2 e
+    obtain ⟨hinv, hpf, hlo, hhi, hfree⟩ := ih hinv1 (by omega)
+      (by rw [div_pow_succ]; split at hx <;> omega) hheld1
+    refine ⟨hinv, ?_, by omega, hhi, ?_⟩
+    · intro q
+      rw [hpf q, hpf1 q, div_pow_succ]
+      constructor
+      · rintro (⟨a, _⟩ | b)
+        · exact Or.inl a
+        · rcases (hh _).1 b with e | e
+          · exact Or.inr e
+          · exact Or.inl (freeAt_pageFree ho hb e)
+      · rintro (a | b)
+        · by_cases e : q / 2 ^ o = p ^^^ 1
+          · exact Or.inr (by rw [e, hd])
+          · exact Or.inl ⟨a, e⟩
+        · exact Or.inr (by rw [b])
+    · have e : (freeInner mo (setBit f o buddy true) (p / 2) (o + 1)).2 - o =
+          ((freeInner mo (setBit f o buddy true) (p / 2) (o + 1)).2 - (o + 1)) + 1 := by omega
+      rw [e, div_pow_succ']
+      exact hfree
 
 theorem freeInner_spec (mo len : Nat) (f : List Bits) (p o : Nat)
     (h : Inv mo len f) (ho : o ≤ mo) (hr : (p + 1) * 2 ^ o ≤ len)
@@ -43,14 +474,187 @@ theorem freeInner_spec (mo len : Nat) (f : List Bits) (p o : Nat)
     Inv mo len (freeInner mo f p o).1 ∧
     (∀ q, PageFree mo (freeInner mo f p o).1 q ↔ (PageFree mo f q ∨ q / 2 ^ o = p)) ∧
     o ≤ (freeInner mo f p o).2 ∧ (freeInner mo f p o).2 ≤ mo ∧
-    FreeAt (freeInner mo f p o).1 (freeInner mo f p o).2 (p / 2 ^ ((freeInner mo f p o).2 - o)) := by
-  sorry
+    FreeAt (freeInner mo f p o).1 (freeInner mo f p o).2 (p / 2 ^ ((freeInner mo f p o).2 - o)) :=
+  freeInner_spec' mo len f p o h ho ((range_iff _ _ _).1 hr) hheld
 
-theorem recordAllocInner_spec (mo len : Nat) (f : List Bits) (p o : Nat) (h : Inv mo len f) :
-    ((recordAllocInner mo f p o).isSome ↔
-      (o ≤ mo ∧ (p + 1) * 2 ^ o ≤ len ∧ ∀ q, q / 2 ^ o = p → PageFree mo f q)) ∧
-    (∀ f', recordAllocInner mo f p o = some f' →
-      Inv mo len f' ∧ (∀ q, PageFree mo f' q ↔ (PageFree mo f q ∧ q / 2 ^ o ≠ p))) := by
-  sorry
+
+/-! ### `Buddy.new` -/
+
+/-- state of the greedy marking in `new` after all orders `≥ k` have been processed -/
+structure Marked (mo n k : Nat) (f : List Bits) : Prop where
+  size : f.length = mo + 1
+  lens : ∀ o, o ≤ mo → lenAt f o = n / 2 ^ o
+  free : ∀ o i, o ≤ mo →
+    (FreeAt f o i ↔ (k ≤ o ∧ i < n / 2 ^ o ∧ (o < mo → n / 2 ^ (o + 1) ≤ i / 2)))
+
+theorem markFreeAt_spec (num o : Nat) (fuel : Nat) :
+    ∀ (a : Nat) (f : List Bits), a ≤ num / 2 ^ o → num / 2 ^ o - a < fuel →
+      num / 2 ^ o ≤ lenAt f o →
+      (markFreeAt num o fuel (a * 2 ^ o) f).1 = num / 2 ^ o * 2 ^ o ∧
+      (markFreeAt num o fuel (a * 2 ^ o) f).2.length = f.length ∧
+      (∀ o', lenAt (markFreeAt num o fuel (a * 2 ^ o) f).2 o' = lenAt f o') ∧
+      (∀ o' i', FreeAt (markFreeAt num o fuel (a * 2 ^ o) f).2 o' i' ↔
+        (FreeAt f o' i' ∨ (o' = o ∧ a ≤ i' ∧ i' < num / 2 ^ o))) := by
+  induction fuel with
+  | zero => intro a f _ h; omega
+  | succ fuel ih =>
+    intro a f ha hfuel hlen
+    have hcond : a * 2 ^ o + 2 ^ o ≤ num ↔ a < num / 2 ^ o := by
+      rw [← range_iff, Nat.add_mul, Nat.one_mul]
+    unfold markFreeAt
+    by_cases hc : a < num / 2 ^ o
+    · rw [if_pos (hcond.2 hc)]
+      have e : a * 2 ^ o + 2 ^ o = (a + 1) * 2 ^ o := by rw [Nat.add_mul, Nat.one_mul]
+      rw [e, block_nonempty]
+      have hal : a < lenAt f o := by omega
+      obtain ⟨h1, h2, h3, h4⟩ := ih (a + 1) (setBit f o a false) (by omega) (by omega)
+        (by rw [lenAt_setBit]; exact hlen)
+      refine ⟨h1, by rw [h2, length_setBit], fun o' => by rw [h3, lenAt_setBit], ?_⟩
+      intro o' i'
+      rw [h4, freeAt_setBit_false _ _ _ _ _ hal]
+      constructor
+      · rintro ((h | ⟨rfl, rfl⟩) | ⟨rfl, h5, h6⟩)
+        · exact Or.inl h
+        · exact Or.inr ⟨rfl, Nat.le_refl _, hc⟩
+        · exact Or.inr ⟨rfl, by omega, h6⟩
+      · rintro (h | ⟨rfl, h5, h6⟩)
+        · exact Or.inl (Or.inl h)
+        · by_cases e : i' = a
+          · exact Or.inl (Or.inr ⟨rfl, e⟩)
+          · exact Or.inr ⟨rfl, by omega, h6⟩
+    · rw [if_neg (fun h => hc (hcond.1 h))]
+      have : a = num / 2 ^ o := by omega
+      refine ⟨by simp [this], rfl, fun _ => rfl, ?_⟩
+      intro o' i'
+      constructor
+      · exact Or.inl
+      · rintro (h | ⟨_, h5, h6⟩)
+        · exact h
+        · omega
+
+
+/-- value of the `accounted` counter after all orders `≥ k` have been processed -/
+def accOf (mo n k : Nat) : Nat := if k ≤ mo then n / 2 ^ k * 2 ^ k else 0
+
+theorem marked_step (mo n k : Nat) (f : List Bits) (hk : k ≤ mo) (h : Marked mo n (k + 1) f) :
+    (markFreeAt n k (n + 1) (accOf mo n (k + 1)) f).1 = accOf mo n k ∧
+    Marked mo n k (markFreeAt n k (n + 1) (accOf mo n (k + 1)) f).2 := by
+  have hdiv : n / 2 ^ k ≤ n := Nat.div_le_self _ _
+  have hsucc := div_pow_succ n k
+  -- the starting block index at order `k`
+  have hacc : ∃ a, accOf mo n (k + 1) = a * 2 ^ k ∧ a ≤ n / 2 ^ k ∧
+      (∀ i, i < n / 2 ^ k → (a ≤ i ↔ (k < mo → n / 2 ^ (k + 1) ≤ i / 2))) := by
+    unfold accOf
+    by_cases hkm : k + 1 ≤ mo
+    · refine ⟨2 * (n / 2 ^ (k + 1)), ?_, by omega, fun i hi => by omega⟩
+      rw [if_pos hkm, Nat.pow_succ]
+      ac_rfl
+    · exact ⟨0, by rw [if_neg hkm]; simp, Nat.zero_le _, fun i hi => by omega⟩
+  obtain ⟨a, ha, hale, hai⟩ := hacc
+  rw [ha]
+  obtain ⟨h1, h2, h3, h4⟩ := markFreeAt_spec n k (n + 1) a f hale (by omega)
+    (by rw [h.lens k hk]; exact Nat.le_refl _)
+  refine ⟨by rw [h1, accOf, if_pos hk], ⟨by rw [h2, h.size], fun o ho => by rw [h3, h.lens o ho], ?_⟩⟩
+  intro o i ho
+  rw [h4, h.free o i ho]
+  constructor
+  · rintro (⟨a1, a2, a3⟩ | ⟨rfl, a2, a3⟩)
+    · exact ⟨by omega, a2, a3⟩
+    · exact ⟨Nat.le_refl _, a3, (hai i a3).1 a2⟩
+  · rintro ⟨a1, a2, a3⟩
+    by_cases e : o = k
+    · subst e; exact Or.inr ⟨rfl, (hai i a2).2 a3, a2⟩
+    · exact Or.inl ⟨by omega, a2, a3⟩
+
+theorem marked_fold (mo n : Nat) (k : Nat) :
+    ∀ (s : Nat × List Bits), k ≤ mo + 1 → s.1 = accOf mo n k → Marked mo n k s.2 →
+      Marked mo n 0 ((List.range k).reverse.foldl
+        (fun (s : Nat × List Bits) o => markFreeAt n o (n + 1) s.1 s.2) s).2 := by
+  induction k with
+  | zero => intro s _ _ h; simpa using h
+  | succ k ih =>
+    intro s hk hs h
+    rw [List.range_succ, List.reverse_append, List.reverse_singleton, List.singleton_append,
+      List.foldl_cons]
+    obtain ⟨h1, h2⟩ := marked_step mo n k s.2 (by omega) h
+    rw [← hs] at h1 h2
+    exact ih _ (by omega) h1 h2
+
+theorem marked_init (mo n : Nat) :
+    Marked mo n (mo + 1)
+      ((List.range (mo + 1)).map (fun o => List.replicate (n >>> o) true)) := by
+  refine ⟨by simp, ?_, ?_⟩
+  · intro o ho
+    have : o < mo + 1 := by omega
+    simp [lenAt, List.getD_eq_getElem?_getD, this, Nat.shiftRight_eq_div_pow]
+  · intro o i ho
+    have : o < mo + 1 := by omega
+    constructor
+    · rintro ⟨h1, h2⟩
+      simp [getBit, lenAt, List.getD_eq_getElem?_getD, this] at h1 h2
+      simp [h1] at h2
+    · intro h; omega
+
+theorem marked_inv (mo n : Nat) (f : List Bits) (h : Marked mo n 0 f) :
+    Inv mo n f ∧ ∀ p, p < n → PageFree mo f p := by
+  refine ⟨⟨h.size, h.lens, ?_, ?_⟩, ?_⟩
+  · -- a page is free at one order at most
+    have key : ∀ p o₁ o₂, o₁ < o₂ → o₂ ≤ mo → FreeAt f o₁ (p / 2 ^ o₁) →
+        FreeAt f o₂ (p / 2 ^ o₂) → False := by
+      intro p o₁ o₂ hlt h2 hf1 hf2
+      obtain ⟨_, _, a⟩ := (h.free o₁ _ (by omega)).1 hf1
+      obtain ⟨_, b, _⟩ := (h.free o₂ _ h2).1 hf2
+      have a := a (by omega)
+      rw [← div_pow_succ] at a
+      rw [div_pow_of_le (show o₁ + 1 ≤ o₂ by omega) (q := p),
+        div_pow_of_le (show o₁ + 1 ≤ o₂ by omega) (q := n)] at b
+      exact absurd (Nat.div_le_div_right (c := 2 ^ (o₂ - (o₁ + 1))) a) (by omega)
+    intro p o₁ o₂ h1 h2 hf1 hf2
+    rcases Nat.lt_trichotomy o₁ o₂ with hlt | heq | hgt
+    · exact (key p o₁ o₂ hlt h2 hf1 hf2).elim
+    · exact heq
+    · exact (key p o₂ o₁ hgt h1 hf2 hf1).elim
+  · intro o i ho hf1 hf2
+    obtain ⟨_, a1, a2⟩ := (h.free o i (by omega)).1 hf1
+    obtain ⟨_, b1, b2⟩ := (h.free o _ (by omega)).1 hf2
+    have a2 := a2 ho
+    have hx := xor_one_eq i
+    rw [div_pow_succ] at a2
+    split at hx <;> omega
+  · intro p hp
+    -- descending search for the order at which `p` is free
+    have key : ∀ d, d ≤ mo → PageFree mo f p ∨ n / 2 ^ (mo - d) ≤ p / 2 ^ (mo - d) := by
+      intro d
+      induction d with
+      | zero =>
+        intro _
+        by_cases hc : p / 2 ^ mo < n / 2 ^ mo
+        · exact Or.inl ⟨mo, Nat.le_refl _,
+            (h.free mo _ (Nat.le_refl _)).2 ⟨Nat.zero_le _, hc, fun hh => absurd hh (Nat.lt_irrefl _)⟩⟩
+        · exact Or.inr (by simpa using hc)
+      | succ d ih =>
+        intro hd
+        rcases ih (by omega) with hfree | hge
+        · exact Or.inl hfree
+        · have e : mo - d = (mo - (d + 1)) + 1 := by omega
+          rw [e] at hge
+          by_cases hc : p / 2 ^ (mo - (d + 1)) < n / 2 ^ (mo - (d + 1))
+          · refine Or.inl ⟨mo - (d + 1), by omega, (h.free _ _ (by omega)).2
+              ⟨Nat.zero_le _, hc, fun _ => ?_⟩⟩
+            rw [← div_pow_succ]; exact hge
+          · exact Or.inr (by omega)
+    rcases key mo (Nat.le_refl _) with hfree | hge
+    · exact hfree
+    · simp at hge; omega
+
+-- `hc`, `hn` are part of the contract statement; the proof does not need them.
+set_option linter.unusedVariables false in
+theorem new_inv (n cap : Nat) (hc : 0 < cap) (hn : n ≤ cap) :
+    Inv (usableOrder cap) n (Buddy.new n cap).free ∧
+    ∀ p, p < n → PageFree (usableOrder cap) (Buddy.new n cap).free p := by
+  apply marked_inv
+  unfold Buddy.new
+  exact marked_fold (usableOrder cap) n (usableOrder cap + 1) _ (Nat.le_refl _)
+    (by rw [accOf, if_neg (by omega)]) (marked_init _ _)
 
 end Redb.Buddy
